@@ -32,10 +32,11 @@ THEOREMS = [
     "C20_line_layout", "C20_line_numbering", "C20_line_count", "C20_line_one_line_per_field_partial",
     "C20_line_one_line_per_field_refuted", "C20_line_alignment",
     "C20_text_is_repr_or_template", "C20_text_plain_template", "C20_text_placeholder", "C20_text_spec_on_none_refuted",
-    "C20_total_partial", "C20_csv_total_refuted", "C20_total_lone_surrogate_refuted",
+    "C20_total_partial", "C20_total_lone_surrogate_refuted",
     "C20_normalize_idempotent", "C20_normalize_first_char", "C20_normalize_valid_on_simple_names",
     "C20_csv_read_back",
 ]
+FINDING_THEOREMS = ["C20_csv_total_refuted"]
 TS = _pydt.datetime(2020, 1, 2, 3, 4, 5, tzinfo=_pydt.timezone.utc)
 
 # ------------------------------------------------------------------------------------------------
@@ -1083,7 +1084,7 @@ RULE = (
 def correspondence(ctx, rep, cfgname="gen_cfg", extra_import=" Gen_text", with_env=True, nseq=None):
     rnd = random.Random(ctx.seed)
     if nseq is None:
-        nseq = 70 if ctx.tier == "quick" else 700
+        nseq = 120 if ctx.tier == "quick" else 900
     workdir = str(ctx.work / "out")
     os.makedirs(workdir, exist_ok=True)
     seqterms, written = build_cases(ctx, rep, rnd, nseq, workdir, cfgname)
@@ -1162,6 +1163,14 @@ def run(ctx):
     ]
     if not ok:
         return
+    # witnesses that a repair of /repo makes false live in props/C20_findings.v: informational only
+    fb = core.coq_build(["props/C20_findings.vo"], gens=["gen_text"])
+    if fb["ok"]:
+        pa = core.print_assumptions("C20_findings", FINDING_THEOREMS, ctx.work)
+        for t in FINDING_THEOREMS:
+            ctx.coverage["trusted_base"].append("Print Assumptions %s: %s" % (t, pa.get(t, "?")))
+    else:
+        ctx.notes.append("props/C20_findings.v no longer checks (%s): the CSV strict-encoder finding does not reproduce at model level" % fb["failed"])
     with warnings.catch_warnings():
         warnings.simplefilter("ignore")
         replay_witnesses(ctx, kf, _workdir(ctx))
